@@ -62,23 +62,6 @@ def run(tape, scenario, want_c11=False):
             sp["decl_in"] = max(1, in_sz - tape.draw("c18/aero-in-less", 4)) if in_sz else 0
             sp["decl_out"] = max(1, out_sz - tape.draw("c18/aero-out-less", 4)) if out_sz else 0
         specs.append(sp)
-    sims, terms = [], []
-    stations = [1001 + k for k in range(nterm)]
-    if tape.chance("c18/shuffle-stations", 50):
-        stations = tape.shuffle("c18/station-order", stations)   # ring order != address order
-    for k, sp in enumerate(specs):
-        st = PDTerminal(bus, f"T{k}", stations[k], sp["in_sz"], sp["out_sz"], n_fmmu=sp["n_fmmu"])
-        st.index = k
-        st.refresh_inputs()
-        bus.add_terminal(st)
-        sims.append(st)
-        cls = None
-        if sp["aero"]:
-            cls = type("Aero", (AerotechBase,), dict(in_size=sp["decl_in"],
-                                                     out_size=sp["decl_out"]))
-        terms.append(ebpf_terminal(ec, st, sp["use_fmmu"], cls))
-    install_cycle_hook(bus)
-
     violations = []
 
     def viol(rule, detail, **params):
@@ -108,7 +91,7 @@ def run(tape, scenario, want_c11=False):
     for k in range(nterm):
         need = sum((1 if specs[k]["in_sz"] else 0) + (1 if gr["members"].get(k) else 0)
                    for gr in groups if k in gr["members"] and specs[k]["use_fmmu"])
-        if need > sims[k].n_fmmu:
+        if need > specs[k]["n_fmmu"]:
             for gr in groups[1:]:
                 gr["members"].pop(k, None)
     groups = [gr for gr in groups if gr["members"]]
@@ -151,6 +134,35 @@ def run(tape, scenario, want_c11=False):
                 size += 12 + s
                 n += 1
         return size, n
+
+
+    if big and tape.chance("c18/fit-boundary", 60):
+        # put the group's frame right at the limit: 1500 bytes is the largest that fits
+        target = 1500 + tape.pick("c18/fit-delta", [0, 1, 2, -1, 3, -2, 13, -12])
+        delta = target - predicted(groups[0])[0]
+        for k, rw in sorted(groups[0]["members"].items()):
+            for what in ("in", "out"):
+                if delta and specs[k][f"{what}_sz"] and (what == "in" or rw):
+                    new = min(1000, max(1, specs[k][f"{what}_sz"] + delta))
+                    delta -= new - specs[k][f"{what}_sz"]
+                    specs[k][f"{what}_sz"] = new
+        world.count("c18/fitted-to-boundary" if delta == 0 else "c18/fit-failed")
+    sims, terms = [], []
+    stations = [1001 + k for k in range(nterm)]
+    if tape.chance("c18/shuffle-stations", 50):
+        stations = tape.shuffle("c18/station-order", stations)   # ring order != address order
+    for k, sp in enumerate(specs):
+        st = PDTerminal(bus, f"T{k}", stations[k], sp["in_sz"], sp["out_sz"], n_fmmu=sp["n_fmmu"])
+        st.index = k
+        st.refresh_inputs()
+        bus.add_terminal(st)
+        sims.append(st)
+        cls = None
+        if sp["aero"]:
+            cls = type("Aero", (AerotechBase,), dict(in_size=sp["decl_in"],
+                                                     out_size=sp["decl_out"]))
+        terms.append(ebpf_terminal(ec, st, sp["use_fmmu"], cls))
+    install_cycle_hook(bus)
 
     started = []
     cycles_of = {}
